@@ -121,6 +121,18 @@ func genC09(seed int64, tier string) *Scenario {
 	if classes {
 		use.WriteString("---@type Cls0\nlocal c0 = nil\nprint(c0.fa0)\n")
 	}
+	if r.Intn(2) == 0 {
+		// an annotated function called with too few arguments from many files: the cross-file workers
+		// all consult (and lazily fill) the callee's shared parameter information
+		sc.Files = append(sc.Files, File{Path: "d0/annfn.lua", Data: Bytes("---@param a number\n---@param b number\n---@param c number\nfunction annfn(a, b, c)\n  return a\nend\n")})
+		for i := range sc.Files {
+			if strings.HasSuffix(sc.Files[i].Path, ".lua") && sc.Files[i].Path != "d0/annfn.lua" && r.Intn(3) > 0 {
+				sc.Files[i].Data = append(sc.Files[i].Data, []byte("annfn(1)\nannfn(1, 2)\n")...)
+			}
+		}
+		use.WriteString("annfn(1)\n")
+		sc.Knobs["annfn"] = true
+	}
 	if r.Intn(3) == 0 {
 		// a global table defined in one file and extended from others; two of them add a member of
 		// the same name: which one the table ends up with must not depend on map or arrival order
